@@ -124,6 +124,9 @@ def cases(draw):
         "ws": draw(st.lists(ws, min_size=8, max_size=8)),
         "mul_extra": draw(st.sampled_from([1, 2, 3])),
         "registry_hit": draw(st.integers(0, 3)),
+        # how each alternative is handed to LauncherRegistry.find: text (joined with the
+        # previous textual one by "|" or as a string of its own) or requirement object
+        "find_mix": draw(st.lists(st.sampled_from(["text", "text-joined", "object"]), min_size=3, max_size=3)),
     }
 
 
@@ -399,19 +402,37 @@ def prop(ctx, case):
             calls.append(spec)
             return launcher if len(calls) - 1 == hit else None
 
+        # the alternatives handed over as a mix of strings and requirement objects
+        specs_in = []
+        for i, a in enumerate(alts):
+            how = case.get("find_mix", ["text-joined"] * 3)[i]
+            if how == "object":
+                specs_in.append(prog[i])
+            elif how == "text-joined" and specs_in and isinstance(specs_in[-1], str):
+                specs_in[-1] = specs_in[-1] + " | " + render([a], case["ws"])
+            else:
+                specs_in.append(render([a], case["ws"]))
         reg.find_launcher_fn = find_launcher
         try:
-            got = reg.find(text)
+            got = reg.find(*specs_in)
+        except Exception as e:
+            got = None
+            ctx.violation(f"order:registry-raises:{type(e).__name__}", f"find{tuple(specs_in)!r} raised {type(e).__name__}: {e}")
+            calls = None
         finally:
             reg.find_launcher_fn = None
         expect_calls = min(len(alts), hit + 1)
-        if len(calls) != expect_calls or (got is launcher) != (hit < len(alts)):
-            ctx.violation("order:registry-calls", f"find({text!r}) consulted {len(calls)} alternatives, expected {expect_calls}; result {got}")
+        if calls is None:
+            pass
+        elif len(calls) != expect_calls or (got is launcher) != (hit < len(alts)):
+            ctx.violation("order:registry-calls", f"find{tuple(specs_in)!r} consulted {len(calls)} alternatives, expected {expect_calls}; result {got}")
         else:
             for i, c in enumerate(calls):
                 if not hasattr(c, "cuda_gpus") or fields(c) != refs[i]:
-                    ctx.violation("order:registry", f"find({text!r}) consulted {c} at position {i}, expected {refs[i]}")
+                    ctx.violation("order:registry", f"find{tuple(specs_in)!r} consulted {c} at position {i}, expected alternative {i}: {refs[i]}")
                     break
+        if any(isinstance(x, str) for x in specs_in) and any(not isinstance(x, str) for x in specs_in):
+            ctx.label("find:mixed-text-and-objects")
 
     after = (hostobj.cuda, hostobj.cpu, hostobj.max_duration, hostobj.min_gpu, hostobj.priority)
     if after != host_snap:
